@@ -219,6 +219,25 @@ where
                 "Transaction is already active".to_string(),
             )));
         }
+
+        // The current epoch (and the user versions) were read before the transaction flag was
+        // taken. If another publish completed in between, everything computed above is stale:
+        // refuse instead of writing the same epoch a second time.
+        match self.retrieve_azks().await {
+            Ok(azks) if azks.get_latest_epoch() == current_epoch => {}
+            Ok(azks) => {
+                let _ = self.storage.rollback_transaction();
+                return Err(AkdError::Storage(StorageError::Transaction(format!(
+                    "The directory moved from epoch {} to epoch {} while this publish was being prepared",
+                    current_epoch,
+                    azks.get_latest_epoch()
+                ))));
+            }
+            Err(err) => {
+                let _ = self.storage.rollback_transaction();
+                return Err(err);
+            }
+        }
         info!("Starting inserting new leaves");
 
         if let Err(err) = current_azks
